@@ -499,6 +499,9 @@ func applyEdit(r *rng, p *Project, c *committed, abs string) string {
 	for _, comp := range splitPath(c.artPath) {
 		cur = cur.get(comp)
 	}
+	if cur == nil {
+		return "" // the artifact is not there (an earlier command failed to produce it)
+	}
 	type ent struct {
 		rel string
 		n   *Node
